@@ -18,7 +18,7 @@
 From Coq Require Import List Arith Bool ZArith.
 From VBase Require Import FieldOps.
 From VModel Require Import Fri.
-From VProofs Require Import FriAccept FriBinding FriExamples.
+From VProofs Require Import FriAccept FriBinding FriCount FriExamples.
 Import ListNotations.
 
 Section C05.
@@ -112,6 +112,19 @@ Print Assumptions C05_fri_accept_iff_unrepaired.
 Print Assumptions C05_adaptive_remainder_accepted_unrepaired.
 Print Assumptions C05_adaptive_remainder_rejected.
 Print Assumptions C05_fri_binding.
+
+(* fri_query_counting_partial — the counting step of the soundness argument (pure counting, no probability theory):
+   for a last-layer function E fixed before the queries and a remainder R, check (e) passes on a vector ps of q
+   last-layer positions iff R agrees with E at every entry, and exactly (n - bad)^q of the n^q vectors pass, where
+   bad = number of positions in [0,n) where R and E disagree (so at most ((1-delta) n)^q when bad >= delta n).
+   PARTIAL: vectors of last-layer positions only; the passage from first-layer query positions through fold_positions
+   and the relation between distance from the code and `bad` (proximity gaps) are NOT treated. *)
+Theorem C05_fri_query_counting_partial : forall (F : Type) (O : FOps F) (gen_offset : F) R g E n q,
+  let bad := length (filter (fun p => negb (good_position O gen_offset R g E p)) (seq 0 n)) in
+  length (filter (fun ps => remainder_check O gen_offset R g ps (map (fun p => nth p E (fzero O)) ps)) (vectors n q))
+  = (n - bad) ^ q /\ length (vectors n q) = n ^ q.
+Proof. exact (@fri_query_counting_partial). Qed.
+Print Assumptions C05_fri_query_counting_partial.
 
 (* non-vacuity of the characterisation: the executable instantiation (f64, ToyHasher, one FRI layer, queries 1, 5, 6 with a
    collision after folding) accepts the model prover's proof, and answers RemainderCommitmentMismatch when the remainder is
